@@ -39,3 +39,8 @@ def norm_stop(s, n):
     if s < 0:
         return max(s + n, 0)
     return min(s, n)
+
+
+def first_token(text):
+    """text.split(' ')[0] (uninterpreted on the symbolic side)."""
+    return text.split(' ')[0]
